@@ -165,6 +165,18 @@ func (fc *fwdCtx) ge(v ssa.Value, facts []core.SSAFact, baseParam *ssa.Parameter
 			}
 			return true, ""
 		}
+		if bi, ok := x.Call.Value.(*ssa.Builtin); ok && bi.Name() == "max" {
+			// the greatest argument is at least any one of them
+			why := ""
+			for _, a := range x.Call.Args {
+				ok, w := fc.ge(a, facts, baseParam, inProgress, depth+1)
+				if ok {
+					return true, ""
+				}
+				why = w
+			}
+			return false, "max(...): no argument is known >= the position (" + why + ")"
+		}
 		if cal := x.Call.StaticCallee(); cal != nil && core.InModule(cal) {
 			k := fc.summarise(cal)
 			if k >= 0 && k < len(x.Call.Args) {
